@@ -156,7 +156,7 @@ func TestC19CoreSession(t *testing.T) {
 				ev.Infra(t, "head: %v", err)
 			}
 			kind := rapid.SampledFrom([]string{"results", "results", "txresults", "txs", "block", "stateroot", "latest-txresults"}).Draw(t, "kind")
-			alter := rapid.SampledFrom([]string{"none", "none", "a", "b", "c"}).Draw(t, "alter")
+			alter := rapid.SampledFrom([]string{"none", "none", "a", "b", "c", "d", "e"}).Draw(t, "alter")
 			fp = append(fp, kind, alter, head-H)
 			// provider answers for this call
 			meta := genuineMeta
@@ -174,6 +174,15 @@ func TestC19CoreSession(t *testing.T) {
 			case kind == "results" || kind == "txresults":
 				r := *meta.TxsResults[i]
 				switch alter {
+				case "d":
+					// one result MORE than the block has transactions
+					meta.TxsResults = append(meta.TxsResults, meta.TxsResults[i])
+					altered = "an extra result"
+				case "e":
+					// one result fewer
+					meta.TxsResults = append(meta.TxsResults[:i:i], meta.TxsResults[i+1:]...)
+					altered = "a dropped result"
+					i = 0
 				case "a":
 					r.Code ^= 1
 					altered = "result code"
@@ -184,7 +193,9 @@ func TestC19CoreSession(t *testing.T) {
 					r.Data = append(append([]byte{}, r.Data...), 7)
 					altered = "result data"
 				}
-				meta.TxsResults[i] = &r
+				if alter != "d" && alter != "e" {
+					meta.TxsResults[i] = &r
+				}
 				prov.results = &consensus.BlockResults{Height: fx.results.Height, Meta: cbor.Marshal(meta)}
 			case kind == "txs" || kind == "stateroot":
 				j := rapid.IntRange(0, len(fx.txs)-1).Draw(t, "txidx")
@@ -268,7 +279,16 @@ func TestC19CoreSession(t *testing.T) {
 					}
 				} else {
 					var tr *consensus.TransactionsWithResults
-					if tr, gerr = c.GetTransactionsWithResults(ctx, H); gerr == nil {
+					var panicked any
+					gerr, panicked = safely(func() error {
+						var err error
+						tr, err = c.GetTransactionsWithResults(ctx, H)
+						return err
+					})
+					if panicked != nil {
+						fail("panic-results-count", "GetTransactionsWithResults panics on the provider's answer (%s): %v", altered, panicked)
+					}
+					if gerr == nil {
 						if len(tr.Transactions) != len(fx.txs) {
 							fail("unbound-txs", "%d transactions returned, block has %d", len(tr.Transactions), len(fx.txs))
 						}
@@ -278,6 +298,9 @@ func TestC19CoreSession(t *testing.T) {
 							}
 						}
 						if head > H {
+							if len(tr.Results) != len(genuineMeta.TxsResults) {
+								fail("unbound-results", "%d results returned for a block with %d, although H is below the trusted head", len(tr.Results), len(genuineMeta.TxsResults))
+							}
 							for k, r := range tr.Results {
 								g := genuineMeta.TxsResults[k]
 								if r.Error.Code != g.Code || r.GasUsed != uint64(g.GasUsed) {
